@@ -385,6 +385,58 @@ func init() {
 			bb.FixedClock = true
 			return []*Job{st, cl, tb, bb}
 		},
+		Extra: func(tier string, ld *Loaded, ev map[string]interface{}) []Finding {
+			// C14.release-once: the connLimiter induction above shows Acquire/Release keep 0 <= inUse <= limit for
+			// balanced callers; the caller is handleWebSocket. Over its CFG: no path leaves one registration or call
+			// of (*connLimiter).Release and reaches another one without an Acquire in between (a slot handed back
+			// twice lets one more connection in than the limit).
+			relOrAcq := func(suffix string) func(ssa.Instruction) bool {
+				return func(ins ssa.Instruction) bool {
+					var cc *ssa.CallCommon
+					switch x := ins.(type) {
+					case *ssa.Call:
+						cc = &x.Call
+					case *ssa.Defer:
+						cc = &x.Call
+					case *ssa.Go:
+						cc = &x.Call
+					}
+					return cc != nil && strings.HasSuffix(calleeName(cc), suffix)
+				}
+			}
+			isRelease := relOrAcq("thruserv.connLimiter).Release")
+			isAcquire := relOrAcq("thruserv.connLimiter).Acquire")
+			fnName := repoModule + "/cmd/thruserv.handleWebSocket"
+			ev["extra_obligations"] = 1
+			ev["extra_discharged"] = 0
+			// releases hidden in closures of the handler are a shape this obligation does not decide
+			if fn := findFuncByString(ld.Prog, fnName); fn != nil {
+				for _, af := range fn.AnonFuncs {
+					for _, b := range af.Blocks {
+						for _, ins := range b.Instrs {
+							if isRelease(ins) {
+								fmt.Printf("INCONCLUSIVE property=C14 obligation=C14.release-once Release is called inside closure %s of handleWebSocket\n", af.Name())
+								return nil
+							}
+						}
+					}
+				}
+			}
+			ok, inc, _ := checkMustPassAfter(ld.Prog, fnName, isRelease, isAcquire, isRelease, ev, "cfg:handleWebSocket release-once")
+			if ok {
+				ev["extra_discharged"] = 1
+				return nil
+			}
+			if inc != "" {
+				fmt.Printf("INCONCLUSIVE property=C14 obligation=C14.release-once %s\n", inc)
+				return nil
+			}
+			w := fnName + ": a path leaves one call/defer of (*connLimiter).Release and reaches a second one without an Acquire in between (the slot is handed back twice)"
+			return []Finding{{Obligation: "C14.release-once", Kind: "cfg", Msg: "a connection slot can be released twice for one Acquire in handleWebSocket", Replay: func(dir string) (bool, string) {
+				os.WriteFile(dir+"/witness.txt", []byte(w+"\n"), 0o644)
+				return true, w
+			}}}
+		},
 	})
 
 	register(&PropCheck{
